@@ -12,13 +12,60 @@ import spec
 VERS = {128: (6, 2, 0), 80: (5, 1, 60)}
 
 
-def gen_case(rng, width=None, wild=False, opts=None):
+def gen_case(rng, width=None, wild=False, opts=None, decorate_p=0.0):
     width = width or rng.choice([128, 128, 80])
     P = gen.gen_problem(rng, opts)
     L = gen.layout_opts(rng, wild=wild, width=min(width, 100))
     L["width"] = min(L["width"], width)
     text = gen.render(rng, P, L)
-    return {"text": text, "width": width, "meta": jsonable_meta(P["meta"])}
+    feats = []
+    if decorate_p:
+        text, feats = decorate(rng, text, width, decorate_p, L["eol"])
+    return {"text": text, "width": width, "meta": jsonable_meta(P["meta"]), "features": feats,
+            "layout": {k: v for k, v in L.items() if k in ("seps", "breaks", "case", "eq", "tabs", "amp")}}
+
+
+def decorate(rng, text, width, p, eol="\n"):
+    """layout features of valid MCNP files that gen.render does not produce: C comment lines at the end of a block,
+    text after the blank line that ends the data block (MCNP ignores it), characters beyond the column limit
+    (MCNP ignores them).  -> (text, [feature names])"""
+    lines = text.split(eol)
+    feats = []
+    # block boundaries: indices of the blank lines after the title (message block aware)
+    i = 0
+    if lines and lines[0].upper().startswith("MESSAGE:"):
+        while i < len(lines) and lines[i].strip():
+            i += 1
+        i += 1
+    i += 1
+    blanks = [k for k in range(i, len(lines)) if not lines[k].strip()][:3]
+    if len(blanks) == 3:
+        ins = []
+        for bi, k in enumerate(blanks):
+            if rng.random() < p:
+                ins.append((k, rng.choice(["c end of block comment", "C", "c     the last line of this block"])))
+                feats.append("block-end-comment-%d" % bi)
+        for k, txt in reversed(ins):
+            lines.insert(k, txt)
+        if rng.random() < p:
+            # everything after the blank line that ends the data block
+            end = [k for k in range(i, len(lines)) if not lines[k].strip()][2]
+            tail = rng.choice([["nps 77"], ["this text is ignored by MCNP"], ["c a comment after the end", "imp:n 9 9 9"],
+                               ["m99 1001.80c 1.0", "", "more ignored text"]])
+            lines = lines[:end + 1] + tail + [""]
+            feats.append("text-after-data-block")
+    if rng.random() < p:
+        # junk beyond the column limit on a few data lines (not on comment lines: a comment is all junk anyway)
+        n = 0
+        for k in range(i, len(lines)):
+            l = lines[k]
+            if l.strip() and len(l.expandtabs(8)) <= width and "\t" not in l and rng.random() < 0.3 \
+                    and not spec.is_comment_line(l):
+                lines[k] = l + " " * (width - len(l)) + rng.choice(["X", "99", "junk beyond the limit", "$ x", "&"])
+                n += 1
+        if n:
+            feats.append("beyond-column-limit")
+    return eol.join(lines), feats
 
 
 def jsonable_meta(m):
@@ -54,7 +101,8 @@ def c01_check(case):
         out = mp.write_problem(pr, "c01.i", VERS[W])
     except Exception as e:
         return {"kind": "write-failed", "error": type(e).__name__, "msg": str(e)[:300]}
-    diffs = spec.compare_files(case["text"], out, W, W)
+    diffs = spec.compare_files(case["text"], out, W, W, check_comments=False)
+    diffs += compare_comments(case["text"], out, W)
     if diffs:
         return {"kind": "denotation-differs", "diffs": [[str(x)[:300] for x in d] for d in diffs[:3]]}
     sp = spec.split_file(out, W)
@@ -65,6 +113,38 @@ def c01_check(case):
         if len(l) > W:
             return {"kind": "line-too-long", "line": l}
     return None
+
+
+def _cwords(comments):
+    return " ".join(comments).split()
+
+
+def compare_comments(text_a, text_b, W):
+    """comments of the two files, block by block.  A comment that the writer had to wrap is the same comment
+    (its words in the same order: the markers, indentation and blanks at the break points do not count); which
+    card a comment line between two cards belongs to is a convention of the reader, so the comparison is by
+    block; the order of the comments inside one card is not part of the property (cell parameters may be
+    regrouped).  -> list of differences in the format of spec.compare_files"""
+    A = spec.split_file(text_a, W)
+    B = spec.split_file(text_b, W)
+    ba = A["blocks"] + [[]] * (3 - len(A["blocks"]))
+    bb = B["blocks"] + [[]] * (3 - len(B["blocks"]))
+    out = []
+    for bi in range(3):
+        xa = [t for c in ba[bi] for t in spec.comments_of(c)]
+        xb = [t for c in bb[bi] for t in spec.comments_of(c)]
+        if _cwords(xa) == _cwords(xb):
+            continue
+        if len(ba[bi]) == len(bb[bi]) and all(sorted(_cwords(spec.comments_of(x))) == sorted(_cwords(spec.comments_of(y)))
+                                             for x, y in zip(ba[bi], bb[bi])):
+            continue
+        if sorted(_cwords(xa)) == sorted(_cwords(xb)):
+            out.append(("comment-order", bi, xa[:8], xb[:8]))
+        else:
+            wa, wb = _cwords(xa), _cwords(xb)
+            out.append(("comments", bi, [t for t in xa if t not in xb][:5], [t for t in xb if t not in xa][:5],
+                        len(xa), len(xb)))
+    return out
 
 
 # ----------------------------------------------------------------------------- denotation (C03)
@@ -734,4 +814,51 @@ def shrink_text(case, failing):
                     break
             except Exception:
                 pass
+    return cur
+
+
+def shrink_lines(case, failing, max_rounds=6):
+    """second stage of shrinking: removes single physical lines (continuation and comment lines) and then single
+    blank-separated words, as long as the case still fails the same way"""
+    cur = dict(case)
+    eol = "\r\n" if "\r\n" in cur["text"] else "\n"
+    for _ in range(max_rounds):
+        changed = False
+        lines = cur["text"].split(eol)
+        i = len(lines) - 1
+        while i >= 1:
+            if lines[i].strip():
+                cand_lines = lines[:i] + lines[i + 1:]
+                cand = dict(cur, text=eol.join(cand_lines))
+                try:
+                    ok = failing(cand)
+                except Exception:
+                    ok = False
+                if ok:
+                    lines = cand_lines
+                    cur = cand
+                    changed = True
+            i -= 1
+        # words
+        lines = cur["text"].split(eol)
+        for i in range(len(lines) - 1, 0, -1):
+            words = re.split(r"( +)", lines[i])
+            j = len(words) - 1
+            while j >= 2:
+                if words[j].strip() and not spec.is_comment_line(lines[i]):
+                    cand_words = words[:j - 1] + words[j + 1:]
+                    cand_line = "".join(cand_words)
+                    cand = dict(cur, text=eol.join(lines[:i] + [cand_line] + lines[i + 1:]))
+                    try:
+                        ok = failing(cand)
+                    except Exception:
+                        ok = False
+                    if ok:
+                        words = cand_words
+                        lines[i] = cand_line
+                        cur = cand
+                        changed = True
+                j -= 2
+        if not changed:
+            break
     return cur
